@@ -848,6 +848,20 @@ def r25_eta_expand_ctor(text):
     return "".join(out), cnt
 
 
+def r16b_iter_collect(text):
+    """R16b: `RECV.iter().collect()` (no adapter in between) -> `verif_iter_collect(&RECV)`: contract-only prelude helper
+    (assumed contract: the references to the elements of RECV in its iteration order)."""
+    m = L.mask(text)
+    out, last, cnt = [], 0, 0
+    for r in re.finditer(r"([A-Za-z_][A-Za-z0-9_]*(?:\s*\.\s*[A-Za-z_][A-Za-z0-9_]*)*?)\s*\.\s*iter\s*\(\s*\)\s*\.\s*collect\s*(::<[^;()]*?>)?\s*\(\s*\)", m):
+        out.append(text[last:r.start()])
+        out.append("verif_iter_collect(&" + " ".join(text[r.start(1):r.end(1)].split()) + ")")
+        last = r.end()
+        cnt += 1
+    out.append(text[last:])
+    return "".join(out), cnt
+
+
 def r22_entry_and_modify(text):
     """R22: the Entry-API chain, as a statement,
          RECV.entry(K).and_modify(|x| BODY).or_insert(V);   ->  { let k__ = K; match RECV.get_mut(&k__) { Some(x) => { BODY } None => { RECV.insert(k__, V); } } }
@@ -939,6 +953,7 @@ def r23_hashmap_into_iter(text, exprs):
 
 RULES = {
     "R22": r22_entry_and_modify,
+    "R16b": r16b_iter_collect,
     "R25": r25_eta_expand_ctor,
     "R18b": r18b_hoist_question_mark,
     "R17b": r17b_tail_continue,
